@@ -83,6 +83,30 @@ package parser
 //@ spec percentDigits(s) = cutbefore(trimsuffix(s, "%"), ".") + cutafter(trimsuffix(s, "%"), ".")
 //@ spec percentText(s) = isnumeral(percentDigits(s), 10)
 
+
+// ---------------------------------------------------------------- C15: what "the tree is the text" means here
+// the range of a construct: first character of its first token to just past its last token, in characters
+//@ spec rangeIs(r, c) = r.Start.Line == c.GetStart().GetLine() - 1 && r.Start.Character == c.GetStart().GetColumn() && r.End.Line == c.GetStop().GetLine() - 1 && r.End.Character == c.GetStop().GetColumn() + srunes(c.GetStop().GetText())
+//@ spec tokRangeIs(r, t) = r.Start.Line == t.GetLine() - 1 && r.Start.Character == t.GetColumn() && r.End.Line == t.GetLine() - 1 && r.End.Character == t.GetColumn() + srunes(t.GetText())
+// an expression node sits at a context / a source node sits at a context (an account source is its expression)
+//@ spec exprAt(e, c) = !absent(e) ==> rangeIs(rangeof(e), c)
+//@ spec srcAt(s, c) = !absent(s) ==> ite(typeis(s, *SourceAccount), exprAt(as(s, *SourceAccount).ValueExpr, c), rangeIs(rangeof(s), c))
+//@ spec sentAt(v, c) = !absent(v) ==> rangeIs(rangeof(v), c)
+//@ spec allotAt(a, c) = !absent(a) ==> rangeIs(rangeof(a), c)
+// kept-or-destination: `kept` has its own range; `to <destination>` is its destination (a node made by the conversion,
+// never one that existed before: the engine has no reachability argument, so this is stated)
+//@ spec kodAt(k, c) = !absent(k) ==> ite(typeis(k, *DestinationKept), typeis(c, *antlr.DestinationKeptContext) && rangeIs(as(k, *DestinationKept).Range, c), typeis(c, *antlr.DestinationToContext) && freshiface(as(k, *DestinationTo).Destination) && destAt(as(k, *DestinationTo).Destination, as(c, *antlr.DestinationToContext).Destination()))
+//@ spec destAt(d, c) = !absent(d) ==> ite(typeis(d, *DestinationAccount), exprAt(as(d, *DestinationAccount).ValueExpr, c), rangeIs(rangeof(d), c))
+
+// T3: an alternative that consists of a single child spans exactly that child (same first and last token)
+//@ spec sameSpan(c, d) = c.GetStart() == d.GetStart() && c.GetStop() == d.GetStop()
+//@ axiom [t3-span-monetary] foralltyped(c, *antlr.MonetaryLiteralContext, c != nil && c.MonetaryLit() != nil ==> sameSpan(c, c.MonetaryLit()))
+//@ axiom [t3-span-portion] foralltyped(c, *antlr.PortionLiteralContext, c != nil && c.Portion() != nil ==> sameSpan(c, c.Portion()))
+//@ axiom [t3-span-number] foralltyped(c, *antlr.NumberLiteralContext, c != nil && c.NUMBER() != nil ==> c.GetStart() == c.NUMBER().GetSymbol() && c.GetStop() == c.NUMBER().GetSymbol())
+//@ axiom [t3-span-src-account] foralltyped(c, *antlr.SrcAccountContext, c != nil && c.ValueExpr() != nil ==> sameSpan(c, c.ValueExpr()))
+//@ axiom [t3-span-dest-account] foralltyped(c, *antlr.DestAccountContext, c != nil && c.ValueExpr() != nil ==> sameSpan(c, c.ValueExpr()))
+//@ axiom [t3-span-portioned] foralltyped(c, *antlr.PortionedAllotmentContext, c != nil && c.Portion() != nil ==> sameSpan(c, c.Portion()))
+
 // ---------------------------------------------------------------- the conversion layer (parse tree -> AST)
 
 //@ func parseVarsDeclaration
@@ -90,19 +114,50 @@ package parser
 
 //@ func parseProgram
 //@   requires [ctx] programCtx != nil
+//@   ensures [statements] {C15} len(result.Statements) == len(programCtx.AllStatement()) && forallidx(i, 0, len(programCtx.AllStatement()), !absent(result.Statements[i]) ==> ite(typeis(programCtx.AllStatement()[i], *antlr.FnCallStatementContext), rangeIs(rangeof(result.Statements[i]), as(programCtx.AllStatement()[i], *antlr.FnCallStatementContext).FunctionCall()), rangeIs(rangeof(result.Statements[i]), programCtx.AllStatement()[i])))
 //@   modifies nothing
+//@   loop 1
+//@     invariant [len] len(statements) == iter
+//@     invariant [allocated] forallidx(i, 0, iter, freshiface(statements[i]))
+//@     invariant [mapped] forallidx(i, 0, iter, !absent(statements[i]) ==> ite(typeis(programCtx.AllStatement()[i], *antlr.FnCallStatementContext), rangeIs(rangeof(statements[i]), as(programCtx.AllStatement()[i], *antlr.FnCallStatementContext).FunctionCall()), rangeIs(rangeof(statements[i]), programCtx.AllStatement()[i])))
 
 //@ func parseVarDeclaration
+//@   ensures [node] {C15} result != nil ==> fresh(result) && rangeIs(result.Range, varDecl) && (result.Name != nil ==> tokRangeIs(result.Name.Range, varDecl.GetName())) && (result.Type != nil ==> tokRangeIs(result.Type.Range, varDecl.GetType_()) && result.Type.Name == varDecl.GetType_().GetText())
+//@   ensures [origin] {C15} result != nil && result.Origin != nil ==> varDecl.VarOrigin() != nil && rangeIs(result.Origin.Range, varDecl.VarOrigin().FunctionCall())
+//@   ensures [present] {C15} (result != nil) == (varDecl != nil)
 //@   modifies nothing
 
 //@ func parseVarLiteral
+//@   ensures [node] {C15} result != nil ==> fresh(result) && tokRangeIs(result.Range, tk)
 //@   modifies nothing
 
 //@ func parseVarType
+//@   ensures [node] {C15} result != nil ==> fresh(result) && tokRangeIs(result.Range, tk) && result.Name == tk.GetText()
 //@   modifies nothing
 
 //@ func parseSource
+//@   let cap = as(sourceCtx, *antlr.SrcCappedContext)
+//@   let ub = as(sourceCtx, *antlr.SrcAccountUnboundedOverdraftContext)
+//@   let bd = as(sourceCtx, *antlr.SrcAccountBoundedOverdraftContext)
+//@   let ino = as(sourceCtx, *antlr.SrcInorderContext)
+//@   let alo = as(sourceCtx, *antlr.SrcAllotmentContext)
+//@   ensures [at] {C15} srcAt(result, sourceCtx)
+//@   ensures [fresh] freshiface(result)
+//@   ensures [kind] {C15} (typeis(sourceCtx, *antlr.SrcAccountContext) ==> typeis(result, *SourceAccount)) && (typeis(sourceCtx, *antlr.SrcCappedContext) ==> typeis(result, *SourceCapped)) && (typeis(sourceCtx, *antlr.SrcInorderContext) ==> typeis(result, *SourceInorder)) && (typeis(sourceCtx, *antlr.SrcAllotmentContext) ==> typeis(result, *SourceAllotment)) && (typeis(sourceCtx, *antlr.SrcAccountUnboundedOverdraftContext) ==> typeis(result, *SourceOverdraft)) && (typeis(sourceCtx, *antlr.SrcAccountBoundedOverdraftContext) ==> typeis(result, *SourceOverdraft)) && (sourceCtx == nil ==> result == nil)
+//@   ensures [capped] {C15} typeis(sourceCtx, *antlr.SrcCappedContext) ==> exprAt(as(result, *SourceCapped).Cap, cap.GetCap_()) && srcAt(as(result, *SourceCapped).From, cap.Source())
+//@   ensures [unbounded] {C15} typeis(sourceCtx, *antlr.SrcAccountUnboundedOverdraftContext) ==> as(result, *SourceOverdraft).Bounded == nil && exprAt(as(result, *SourceOverdraft).Address, ub.GetAddress())
+//@   ensures [bounded] {C15} typeis(sourceCtx, *antlr.SrcAccountBoundedOverdraftContext) ==> as(result, *SourceOverdraft).Bounded != nil && exprAt(*as(result, *SourceOverdraft).Bounded, bd.GetMaxOvedraft()) && exprAt(as(result, *SourceOverdraft).Address, bd.GetAddress())
+//@   ensures [inorder] {C15} typeis(sourceCtx, *antlr.SrcInorderContext) ==> len(as(result, *SourceInorder).Sources) == len(ino.AllSource()) && forallidx(i, 0, len(ino.AllSource()), srcAt(as(result, *SourceInorder).Sources[i], ino.AllSource()[i]))
+//@   ensures [allotment] {C15} typeis(sourceCtx, *antlr.SrcAllotmentContext) ==> len(as(result, *SourceAllotment).Items) == len(alo.AllAllotmentClauseSrc()) && forallidx(i, 0, len(alo.AllAllotmentClauseSrc()), rangeIs(as(result, *SourceAllotment).Items[i].Range, alo.AllAllotmentClauseSrc()[i]) && srcAt(as(result, *SourceAllotment).Items[i].From, alo.AllAllotmentClauseSrc()[i].Source()) && allotAt(as(result, *SourceAllotment).Items[i].Allotment, alo.AllAllotmentClauseSrc()[i].Allotment()))
 //@   modifies nothing
+//@   loop 1
+//@     invariant [len] len(sources) == iter
+//@     invariant [allocated] forallidx(i, 0, iter, freshiface(sources[i]))
+//@     invariant [mapped] forallidx(i, 0, iter, srcAt(sources[i], ino.AllSource()[i]))
+//@   loop 2
+//@     invariant [len] len(items) == iter
+//@     invariant [allocated] forallidx(i, 0, iter, freshiface(items[i].From) && freshiface(items[i].Allotment))
+//@     invariant [mapped] forallidx(i, 0, iter, rangeIs(items[i].Range, alo.AllAllotmentClauseSrc()[i]) && srcAt(items[i].From, alo.AllAllotmentClauseSrc()[i].Source()) && allotAt(items[i].Allotment, alo.AllAllotmentClauseSrc()[i].Allotment()))
 
 //@ func unsafeParseBigInt
 //@   requires [numeral] isnumeral(trimspace(s), 10)
@@ -128,69 +183,131 @@ package parser
 
 //@ func parseAllotment
 //@   requires [ctx] allotmentCtx != nil
+//@   ensures [at] {C15} allotAt(result, allotmentCtx)
+//@   ensures [fresh] freshiface(result)
+//@   ensures [kind] {C15} (typeis(allotmentCtx, *antlr.RemainingAllotmentContext) ==> typeis(result, *RemainingAllotment)) && (typeis(allotmentCtx, *antlr.PortionVariableContext) ==> typeis(result, *Variable)) && (typeis(allotmentCtx, *antlr.PortionedAllotmentContext) ==> typeis(result, *RatioLiteral))
 //@   modifies nothing
 
 //@ func parseStringLiteralCtx
 //@   requires [ctx] stringCtx != nil
+//@   ensures [node] {C15} result != nil && fresh(result) && rangeIs(result.Range, stringCtx)
 //@   modifies nothing
 
 //@ func parseValueExpr
+//@   ensures [at] {C15} exprAt(result, valueExprCtx)
+//@   ensures [fresh] freshiface(result)
+//@   ensures [kind] {C15} (typeis(valueExprCtx, *antlr.AccountLiteralContext) ==> typeis(result, *AccountLiteral)) && (typeis(valueExprCtx, *antlr.AssetLiteralContext) ==> typeis(result, *AssetLiteral)) && (typeis(valueExprCtx, *antlr.VariableExprContext) ==> typeis(result, *Variable)) && (typeis(valueExprCtx, *antlr.StringLiteralContext) ==> typeis(result, *StringLiteral)) && (typeis(valueExprCtx, *antlr.NumberLiteralContext) ==> typeis(result, *NumberLiteral)) && (typeis(valueExprCtx, *antlr.InfixExprContext) ==> typeis(result, *BinaryInfix)) && (valueExprCtx == nil ==> result == nil)
+//@   ensures [infix] {C15} typeis(valueExprCtx, *antlr.InfixExprContext) ==> exprAt(as(result, *BinaryInfix).Left, as(valueExprCtx, *antlr.InfixExprContext).GetLeft()) && exprAt(as(result, *BinaryInfix).Right, as(valueExprCtx, *antlr.InfixExprContext).GetRight()) && as(result, *BinaryInfix).Operator == as(valueExprCtx, *antlr.InfixExprContext).GetOp().GetText()
+//@   ensures [asset-text] {C15} typeis(valueExprCtx, *antlr.AssetLiteralContext) ==> as(result, *AssetLiteral).Asset == valueExprCtx.GetText()
 //@   modifies nothing
 
 //@ func variableLiteralFromCtx
 //@   requires [ctx] ctx != nil && slen(ctx.GetText()) >= 1
+//@   ensures [node] {C15} result != nil && fresh(result) && rangeIs(result.Range, ctx)
 //@   modifies nothing
 
 //@ func parsePortionSource
 //@   requires [ctx] portionCtx != nil
+//@   ensures [node] {C15} result != nil ==> fresh(result) && rangeIs(result.Range, portionCtx)
+//@   ensures [kind] {C15} (typeis(portionCtx, *antlr.RatioContext) || typeis(portionCtx, *antlr.PercentageContext)) == (result != nil)
+//@   ensures [ratio-value] {C13} typeis(portionCtx, *antlr.RatioContext) ==> val(result.Numerator) == numval(trimspace(splitpart(portionCtx.GetText(), "/", 0)), 10) && val(result.Denominator) == numval(trimspace(splitpart(portionCtx.GetText(), "/", 1)), 10)
+//@   ensures [percent-value] {C13} typeis(portionCtx, *antlr.PercentageContext) ==> val(result.Numerator) == numval(percentDigits(portionCtx.GetText()), 10) && val(result.Denominator) == bigexp(10, 2 + slen(cutafter(trimsuffix(portionCtx.GetText(), "%"), ".")))
 //@   modifies nothing
 
 //@ func parseDestination
+//@   let ino = as(destCtx, *antlr.DestInorderContext)
+//@   let alo = as(destCtx, *antlr.DestAllotmentContext)
+//@   ensures [at] {C15} destAt(result, destCtx)
+//@   ensures [fresh] freshiface(result)
+//@   ensures [kind] {C15} (typeis(destCtx, *antlr.DestAccountContext) ==> typeis(result, *DestinationAccount)) && (typeis(destCtx, *antlr.DestInorderContext) ==> typeis(result, *DestinationInorder)) && (typeis(destCtx, *antlr.DestAllotmentContext) ==> typeis(result, *DestinationAllotment)) && (destCtx == nil ==> result == nil)
+//@   ensures [inorder-remaining] {C15} typeis(destCtx, *antlr.DestInorderContext) ==> kodAt(as(result, *DestinationInorder).Remaining, ino.KeptOrDestination())
+//@   ensures [inorder-len] {C15} typeis(destCtx, *antlr.DestInorderContext) ==> len(as(result, *DestinationInorder).Clauses) == len(ino.AllDestinationInOrderClause())
+//@   ensures [inorder-clauses] {C15} typeis(destCtx, *antlr.DestInorderContext) ==> forallidx(i, 0, len(ino.AllDestinationInOrderClause()), rangeIs(as(result, *DestinationInorder).Clauses[i].Range, ino.AllDestinationInOrderClause()[i]) && exprAt(as(result, *DestinationInorder).Clauses[i].Cap, ino.AllDestinationInOrderClause()[i].ValueExpr()) && kodAt(as(result, *DestinationInorder).Clauses[i].To, ino.AllDestinationInOrderClause()[i].KeptOrDestination()))
+//@   ensures [allotment] {C15} typeis(destCtx, *antlr.DestAllotmentContext) ==> len(as(result, *DestinationAllotment).Items) == len(alo.AllAllotmentClauseDest()) && forallidx(i, 0, len(alo.AllAllotmentClauseDest()), rangeIs(as(result, *DestinationAllotment).Items[i].Range, alo.AllAllotmentClauseDest()[i]) && kodAt(as(result, *DestinationAllotment).Items[i].To, alo.AllAllotmentClauseDest()[i].KeptOrDestination()) && allotAt(as(result, *DestinationAllotment).Items[i].Allotment, alo.AllAllotmentClauseDest()[i].Allotment()))
 //@   modifies nothing
+//@   loop 1
+//@     invariant [len] len(inorderClauses) == iter
+//@     invariant [allocated] forallidx(i, 0, iter, freshiface(inorderClauses[i].Cap) && freshiface(inorderClauses[i].To))
+//@     invariant [mapped] forallidx(i, 0, iter, rangeIs(inorderClauses[i].Range, ino.AllDestinationInOrderClause()[i]) && exprAt(inorderClauses[i].Cap, ino.AllDestinationInOrderClause()[i].ValueExpr()) && kodAt(inorderClauses[i].To, ino.AllDestinationInOrderClause()[i].KeptOrDestination()))
+//@   loop 2
+//@     invariant [len] len(items) == iter
+//@     invariant [allocated] forallidx(i, 0, iter, freshiface(items[i].To) && freshiface(items[i].Allotment))
+//@     invariant [mapped] forallidx(i, 0, iter, rangeIs(items[i].Range, alo.AllAllotmentClauseDest()[i]) && kodAt(items[i].To, alo.AllAllotmentClauseDest()[i].KeptOrDestination()) && allotAt(items[i].Allotment, alo.AllAllotmentClauseDest()[i].Allotment()))
 
 //@ func parseDestinationInorderClause
 //@   requires [ctx] clauseCtx != nil
+//@   ensures [node] {C15} rangeIs(result.Range, clauseCtx) && exprAt(result.Cap, clauseCtx.ValueExpr()) && kodAt(result.To, clauseCtx.KeptOrDestination())
+//@   ensures [fresh] freshiface(result.Cap) && freshiface(result.To)
 //@   modifies nothing
 
 //@ func parseKeptOrDestination
+//@   ensures [at] {C15} kodAt(result, clauseCtx)
+//@   ensures [fresh] freshiface(result)
+//@   ensures [kind] {C15} (typeis(clauseCtx, *antlr.DestinationToContext) ==> typeis(result, *DestinationTo)) && (typeis(clauseCtx, *antlr.DestinationKeptContext) ==> typeis(result, *DestinationKept)) && (clauseCtx == nil ==> result == nil)
 //@   modifies nothing
 
 //@ func parseDestinationAllotment
 //@   requires [ctx] allotmentCtx != nil
+//@   ensures [at] {C15} allotAt(result, allotmentCtx)
+//@   ensures [fresh] freshiface(result)
+//@   ensures [kind] {C15} (typeis(allotmentCtx, *antlr.RemainingAllotmentContext) ==> typeis(result, *RemainingAllotment)) && (typeis(allotmentCtx, *antlr.PortionVariableContext) ==> typeis(result, *Variable))
 //@   modifies nothing
 
 //@ func parseDestinationPortion
 //@   requires [ctx] portionCtx != nil
+//@   ensures [at] {C15} allotAt(result, portionCtx)
+//@   ensures [fresh] freshiface(result)
 //@   modifies nothing
 
 //@ func parseFnArgs
+//@   ensures [args] {C15} fnCallArgCtx != nil ==> len(result) == len(fnCallArgCtx.AllValueExpr()) && forallidx(i, 0, len(fnCallArgCtx.AllValueExpr()), exprAt(result[i], fnCallArgCtx.AllValueExpr()[i]) && freshiface(result[i]))
+//@   ensures [none] {C15} fnCallArgCtx == nil ==> len(result) == 0
 //@   modifies nothing
+//@   loop 1
+//@     invariant [len] len(args) == iter
+//@     invariant [mapped] forallidx(i, 0, iter, exprAt(args[i], fnCallArgCtx.AllValueExpr()[i]) && freshiface(args[i]))
 
 //@ func parseFnCall
+//@   ensures [node] {C15} result != nil ==> fresh(result) && rangeIs(result.Range, fnCallCtx) && result.Caller != nil && tokRangeIs(result.Caller.Range, fnCallCtx.GetFnName()) && result.Caller.Name == fnCallCtx.GetFnName().GetText()
+//@   ensures [args] {C15} result != nil && fnCallCtx.FunctionCallArgs() != nil ==> len(result.Args) == len(fnCallCtx.FunctionCallArgs().AllValueExpr()) && forallidx(i, 0, len(fnCallCtx.FunctionCallArgs().AllValueExpr()), exprAt(result.Args[i], fnCallCtx.FunctionCallArgs().AllValueExpr()[i]))
+//@   ensures [present] {C15} (result != nil) == (fnCallCtx != nil && fnCallCtx.GetFnName() != nil)
 //@   modifies nothing
 
 //@ func parseSaveStatement
 //@   requires [ctx] saveCtx != nil
+//@   ensures [node] {C15} result != nil && fresh(result) && rangeIs(result.Range, saveCtx) && sentAt(result.SentValue, saveCtx.SentValue()) && exprAt(result.Amount, saveCtx.ValueExpr())
 //@   modifies nothing
 
 //@ func parseStatement
 //@   requires [ctx] statementCtx != nil
+//@   ensures [kind] {C15} (typeis(statementCtx, *antlr.SendStatementContext) ==> typeis(result, *SendStatement)) && (typeis(statementCtx, *antlr.SaveStatementContext) ==> typeis(result, *SaveStatement)) && (typeis(statementCtx, *antlr.FnCallStatementContext) ==> typeis(result, *FnCall))
+//@   ensures [at] {C15} !absent(result) && !typeis(statementCtx, *antlr.FnCallStatementContext) ==> rangeIs(rangeof(result), statementCtx)
+//@   ensures [call-at] {C15} !absent(result) && typeis(statementCtx, *antlr.FnCallStatementContext) ==> rangeIs(rangeof(result), as(statementCtx, *antlr.FnCallStatementContext).FunctionCall())
+//@   ensures [fresh] freshiface(result)
 //@   modifies nothing
 
 //@ func parseSentValue
 //@   requires [ctx] statementCtx != nil
+//@   ensures [at] {C15} sentAt(result, statementCtx)
+//@   ensures [fresh] freshiface(result)
+//@   ensures [literal] {C15} typeis(statementCtx, *antlr.SentLiteralContext) ==> typeis(result, *SentValueLiteral) && exprAt(as(result, *SentValueLiteral).Monetary, as(statementCtx, *antlr.SentLiteralContext).ValueExpr())
+//@   ensures [all] {C15} typeis(statementCtx, *antlr.SentAllContext) ==> typeis(result, *SentValueAll) && exprAt(as(result, *SentValueAll).Asset, as(statementCtx, *antlr.SentAllContext).SentAllLit().GetAsset())
 //@   modifies nothing
 
 //@ func parseSendStatement
 //@   requires [ctx] statementCtx != nil
+//@   ensures [node] {C15} result != nil && fresh(result) && rangeIs(result.Range, statementCtx) && sentAt(result.SentValue, statementCtx.SentValue()) && srcAt(result.Source, statementCtx.Source()) && destAt(result.Destination, statementCtx.Destination())
 //@   modifies nothing
 
 //@ func parseNumberLiteral
 //@   requires [node] numNode != nil
+//@   ensures [node] {C15} result != nil && fresh(result) && tokRangeIs(result.Range, numNode.GetSymbol())
+//@   ensures [value] {C15} atoi_ok(numNode.GetText()) ==> result.Number == atoi_val(numNode.GetText())
 //@   modifies nothing
 
 //@ func parseMonetaryLit
 //@   requires [ctx] monetaryLitCtx != nil
+//@   ensures [node] {C15} result != nil ==> fresh(result) && rangeIs(result.Range, monetaryLitCtx) && exprAt(result.Asset, monetaryLitCtx.GetAsset()) && exprAt(result.Amount, monetaryLitCtx.GetAmt())
 //@   modifies nothing
 
 // ---------------------------------------------------------------- errors and their display
